@@ -406,12 +406,17 @@ def structure_function_vk(seperation, r0, L0):
     Returns:
         ndarray, float: Structure function for seperation(s)
     """
+    # x**(5/6) * K_5/6(x) evaluates to 0 * inf = NaN at x = 0 although its limit there is finite and
+    # makes D_vk(0) = 0: evaluate the formula away from zero and put in the exact value afterwards
+    sep = numpy.where(seperation == 0, L0, seperation)
+
     ## theoretical structure function
     D_vk = (    0.17253 * (L0 / (r0)) ** (5. / 3.)
-                * (1 - 2 * numpy.pi ** (5. / 6.) * ((seperation) / L0) ** (5. / 6.)
+                * (1 - 2 * numpy.pi ** (5. / 6.) * ((sep) / L0) ** (5. / 6.)
                 / scipy.special.gamma(5. / 6.)
-                * scipy.special.kv(5. / 6., (2 * numpy.pi * seperation) / L0))
+                * scipy.special.kv(5. / 6., (2 * numpy.pi * sep) / L0))
             )
+    D_vk = numpy.where(seperation == 0, 0., D_vk)
 
     return D_vk
 
